@@ -24,7 +24,7 @@ def gen_case(rng, i, tier):
     kind = rng.choice(SOLVERS)
     if i < 2:
         kind = "semi"
-    pk = {"rvi": "unichain", "periodic": rng.choice(["periodic", "unichain", "random"])}.get(kind, rng.choice(["random", "unichain", "cost", "twosink"]))
+    pk = {"rvi": rng.choice(["unichain", "unichain", "invest"]), "periodic": rng.choice(["periodic", "unichain", "random"])}.get(kind, rng.choice(["random", "unichain", "cost", "twosink"]))
     spec = gen.gen_spec(rng, smax=10 if tier == "quick" else 24, kind=pk, denom=4, R=rng.choice([1, 5, 10]), S=(rng.randint(5, 10) if i < 2 else None))
     S = spec_size(spec)
     op = {"op": "new", "solver": kind, "id": f"p{i}", "maxbs": rng.choice(gen.layouts_for(S)), "n_hint": S}
